@@ -275,6 +275,30 @@ def rp(func):
     return f
 
 
+# ---- export(): a writer that fails at some data-set write must leave the file flagged
+def invoke_export_failing(ip, repo, fref, ctx):
+    S = ctx['S']
+    ip.add_pc(z3.Not(z3.Bool('file_exists_f.h5')))
+    ip.ghost['h5_write_may_fail'] = True
+    return ip.call(ip.getattr(S, 'export'), ['f.h5'], {})
+
+
+def post_export_failing(ip, ctx, out):
+    failed = [e for e in ip.log if e[0] == 'dataset-write-failed']
+    disk = ip.ghost.get('disk', {}).get('f.h5')
+    if out.kind == 'raise' and failed and disk is not None and disk.get('attrs') is not None:
+        ip.prove('file/interrupted-export-keeps-flag', z3.BoolVal(disk['attrs'].get('writing') is True),
+                 {'writing': repr(disk['attrs'].get('writing')), 'failed write': failed[0][1]})
+    elif out.kind == 'return':
+        ip.prove('file/complete-export-resets-flag', z3.BoolVal(disk is not None and disk['attrs'].get('writing') is False))
+    else:
+        ip.prove('path-accounted', z3.BoolVal(True))
+
+
+def path_end_export(ip, ctx):
+    ip.prove('path-accounted', z3.BoolVal(True))
+
+
 def targets(tier='quick'):
     R = base_registry()
     T = []
@@ -290,6 +314,13 @@ def targets(tier='quick'):
     for mode in ('write', 'overwrite', 'read'):
         T.append(Target('file/close[%s]' % mode, CLS + '.close', scen_close(mode), post_close, R, PROP, invoke=invoke_close,
                         replay=rp('file_protocol')))
+    from . import c16
+    for init_none in (True, False):
+        t = Target('file/export-interrupted[init=%s]' % ('None' if init_none else 'tensor'), 'process_tensor.SimpleProcessTensor.export',
+                   c16.scen_export_import('file', init_none, True), post_export_failing, c16.exp_registry(), PROP, invoke=invoke_export_failing,
+                   replay=rp('file_protocol'), max_paths=3000)
+        t.keep = lambda name: name.startswith(('file/', 'path-accounted', 'unexpected'))
+        T.append(t)
     T.append(Target('file/read', CLS + '._read_file', scen_read, post_read, R, PROP, invoke=invoke_ctor, replay=rp('file_protocol')))
     for mode, fn in (('write', 'f.h5'), ('write', None), ('overwrite', 'f.h5'), ('read', 'f.h5')):
         T.append(Target('file/remove[%s,%s]' % (mode, fn), CLS + '.remove', scen_remove(mode, fn), post_remove, R, PROP,
